@@ -311,14 +311,14 @@ def create_lut_rsqrt_int8_op(op):
     quantized_min = min(ix)
     quantized_max = max(ix)
 
-    # Any value close to 0 (zero index in LUT) is mapped to the max output value
-    values = [quantized_max]
+    values = []
     for x in ix:
-        if x == -128:
-            # Value already populated above
-            continue
         # Rsqrt is only defined for positive values
         x_real = max(0, x - zp_in)
+        if x_real == 0:
+            # Any value close to 0 (zero index in LUT) is mapped to the max output value
+            values.append(quantized_max)
+            continue
         val = RSQRT_LUT[x_real]
         val = fp_math.multiply_by_quantized_multiplier(val, output_multiplier, output_shift - kshift) + zp_out
         lut_result = min(quantized_max, max(quantized_min, val))
